@@ -47,7 +47,7 @@ def _strategy():
                 "tx_time": draw(st.sampled_from([0.0, 0.0, 0.002, 0.005])),
                 # after the sweep: one more global request during which the first request callback of CA k of stack 0 removes its
                 # own CA from the ECU (remove_ca) - the stack's other CAs are still asked, once each
-                "remove": draw(st.sampled_from([None, None, 0, 1])),
+                "remove": draw(st.sampled_from([None, None, 0, 1, "app"])),
                 "lat": draw(st.lists(st.sampled_from(simbus.LATENCY_GRID[1:6]), min_size=1, max_size=2))}
     return build()
 
@@ -96,6 +96,17 @@ class C14:
         lat = {"Q": p["lat"], "X": [0.0002]}
         for i in range(len(p["stacks"])):
             lat["S%d" % i] = p["lat"]
+        if p.get("remove") == "app":
+            # (this variant needs three operational CAs on stack 0)
+            st0 = [dict(c) for c in p["stacks"][0]][:3]
+            used = {c["addr"] for cas in p["stacks"] for c in cas} | {p["req_addr"]}
+            free = [a for a in (0x11, 0x13, 0x15, 0x17, 0x19, 0x1B) if a not in used]
+            while len(st0) < 3:
+                st0.append({"state": "bypass", "addr": free.pop(0), "ncb": 1, "oneshot": None})
+            for c in st0:
+                if c["state"] != "bypass":
+                    c["state"] = "bypass"
+            p = dict(p, stacks=[st0] + [list(x) for x in p["stacks"][1:]])
         w = W.World(latency=lat)
         nreq = 0
         try:
@@ -235,7 +246,38 @@ class C14:
             # ---- removal phase
             rm = p.get("remove")
             cas0 = [(stk, nm, ca, nv, c) for (stk, nm, ca, nv, c) in resp if nm.startswith("S0.")]
-            if rm is not None and rm < len(cas0) and len(cas0) >= 2 and p["req_has_addr"] and not viol:
+            if rm == "app" and not viol:
+                # the APPLICATION removes the second CA of stack 0 while the stack is answering a global request for address claimed
+                # (every answer write takes 4 ms, the removal comes 2 ms into the first one): the CAs behind it still answer
+                ok_cas = [x for x in cas0 if x[2].state == State.NORMAL]
+                if len(cas0) >= 3 and cas0[0][2].state == State.NORMAL and cas0[2][2].state == State.NORMAL:
+                    stk0 = cas0[0][0]
+                    stk0.tx_all_contexts, stk0.tx_time = True, 0.004
+                    k0 = len(w.bus.log)
+                    removed = []
+
+                    def tap(e):
+                        if e.node == "S0" and ((e.can_id >> 16) & 0xFF) == 0xEE and e.k > k0 and not removed:
+                            removed.append(None)
+                            w.sim.schedule(w.sim.now + 0.002, lambda: removed.__setitem__(0, stk0.ecu.remove_ca(cas0[1][4]["addr"])))
+                    w.bus.taps.append(tap)
+                    own = {nm: (ca.state, ca.device_address) for (stk, nm, ca, nv, c) in resp}
+                    try:
+                        qca.send_request(0, 0xEE00, 255)
+                    except Exception:  # noqa (a requester without address asks from 254 - allowed; anything else was judged above)
+                        pass
+                    w.run_for(settle + 0.004 * (len(cas0) + 1) + 0.02)
+                    w.bus.taps.remove(tap)
+                    if removed == [True]:
+                        nreq += 1
+                        got = {(e.node, e.can_id & 0xFF) for e in w.bus.log[k0:] if ((e.can_id >> 16) & 0xFF) == 0xEE and e.node == "S0"}
+                        for (stk, nm, ca, nv, c) in cas0[2:]:
+                            if own[nm][0] == State.NORMAL and ("S0", own[nm][1]) not in got:
+                                V("claim-answer", "global request for address claimed during which the application removed CA %s (remove_ca, "
+                                  "2 ms into the first answer write): operational CA %s (address %d) did not answer; answers came from %r"
+                                  % (cas0[1][1], nm, own[nm][1], sorted(a for (_, a) in got)), "remove_ca")
+                                break
+            elif rm is not None and rm < len(cas0) and len(cas0) >= 2 and p["req_has_addr"] and not viol:
                 stk0, nm_r, ca_r, nv_r, c_r = cas0[rm]
                 removed = []
 
